@@ -4,7 +4,7 @@
    [cf] ranges over the four policies, every capacity >= 1 and every expiry setting; keys and values
    are arbitrary types with a decidable key equality. *)
 From Coq Require Import List ZArith Bool Permutation.
-From Asherah Require Import Cache.Generic Cache.ListLemmas Cache.PolicyProofs Cache.CacheProofs.
+From Asherah Require Import Cache.Generic Cache.ListLemmas Cache.PolicyProofs Cache.CacheProofs Cache.Victims.
 Import ListNotations.
 Open Scope Z_scope.
 
@@ -59,6 +59,30 @@ Theorem C15_close_reports_all : forall cf l now h, 1 <= c_cap cf ->
   match step c now h OClose with (c', r, ev) => Permutation (map fst ev) (keys c) end.
 Proof. exact (c15_close_reports_all K V keqb keqb_spec). Qed.
 
+(* victims by definition.  [runi] / [runc] run an operation sequence while keeping, beside the cache, a ghost record of the
+   DEFINING quantity: the time of each key's last use (a Set of the key or a Get that hits), resp. the number of uses since the
+   key was inserted.  Whenever a Set has to make room, every entry it evicts is a least recently used / a least frequently
+   used one among the entries present. *)
+Theorem C15_lru_victim_is_least_recently_used : forall cf l now h k v,
+  c_kind cf = Lru -> 1 <= c_cap cf ->
+  match runi K V keqb (new_cache cf) (fun _ => 0) 1 l with
+  | (c, lu, t) =>
+      match step c now h (OSet k v) with
+      | (_, _, ev) => forall x y, In (x, y) ev -> forall z, In z (map fst (items c)) -> lu x <= lu z
+      end
+  end.
+Proof. exact (lru_victim_is_least_recently_used K V keqb keqb_spec). Qed.
+
+Theorem C15_lfu_victim_is_least_frequently_used : forall cf l now h k v,
+  c_kind cf = Lfu -> 1 <= c_cap cf ->
+  match runc K V keqb (new_cache cf) (fun _ => 0) l with
+  | (c, cnt) =>
+      match step c now h (OSet k v) with
+      | (_, _, ev) => forall x y, In (x, y) ev -> forall z, In z (map fst (items c)) -> cnt x <= cnt z
+      end
+  end.
+Proof. exact (lfu_victim_is_least_frequently_used K V keqb keqb_spec). Qed.
+
 End Statements.
 
 Print Assumptions C15_bounded.
@@ -66,6 +90,8 @@ Print Assumptions C15_total.
 Print Assumptions C15_lookup.
 Print Assumptions C15_callbacks.
 Print Assumptions C15_close_reports_all.
+Print Assumptions C15_lru_victim_is_least_recently_used.
+Print Assumptions C15_lfu_victim_is_least_frequently_used.
 
 (* non-vacuity: a concrete reachable state of an SLRU cache of capacity 2 with an eviction behind it *)
 Example C15_nonvacuous :
@@ -73,3 +99,12 @@ Example C15_nonvacuous :
   let l := [(0, [], OSet 1 10); (0, [], OGet 1); (0, [], OSet 2 20); (0, [], OSet 3 30)] in
   map fst (items (run Z Z Z.eqb (new_cache cf) l)) = [1; 3] /\ 1 <= c_cap cf.
 Proof. vm_compute. split; [reflexivity | discriminate]. Qed.
+
+(* non-vacuity of the victim theorems: an LFU cache of capacity 2 that has to evict; the ghost counts are 2 and 3 *)
+Example C15_lfu_nonvacuous :
+  let cf := {| c_kind := Lfu; c_cap := 2; c_expiry := 0 |} in
+  let l := [(0, [], OSet 1 10); (0, [], OSet 2 20); (0, [], OGet 1); (0, [], OGet 2); (0, [], OGet 2)] in
+  match runc Z Z Z.eqb (new_cache cf) (fun _ => 0) l with
+  | (c, cnt) => (cnt 1, cnt 2) = (2, 3) /\ snd (step Z.eqb c 0 [] (OSet 3 30)) = [(1, 10)]
+  end.
+Proof. vm_compute. split; reflexivity. Qed.
